@@ -15,6 +15,7 @@ EXPLANATION = (
     " R16.6 argument ordering anchors. R16.7 path summaries of the Name arm of cmp_bench_arg_names, decided against a four-class operand model (unsigned integer, negative integer, other number, not a number): every class pair gets the answer a total value order needs - integers exactly, numbers by f64 value, a number against a non-number ranked by class one fixed way round, an integer against a non-integer of equal f64 value ranked one fixed way round, natural order only for two non-numbers; all 16 class pairs are covered. R16.5 also: the location of a node without its own position is computed from location() of each child, recursively (earliest-descendant). R16.8 digit runs compare by numeric value only: on the path where both tokens are digit runs Token::cmp returns exactly cmp_int(self.text, other.text) - no further tie-break inside the token - and the plain string comparison otherwise.")
 EXPLANATION += (" R16.9 natural_cmp is, on its only path, Iterator::cmp of a tokenizer over exactly `a` with a tokenizer over exactly `b` (no prefix skipping or slicing before tokenising).")
 EXPLANATION += (" R16.10 the command line declares --sort / --sortr as one setting (overrides_with), which the reader's sortr-first lookup relies on.")
+EXPLANATION += (' R16.11 (expansions) the instantiations of a types-only benchmark are elements of one array literal (address order = declaration order).')
 NOT_DECIDED = ["transitivity of natural_cmp itself (tokenisation) and of the tree comparator beyond the key structure R16.1-R16.5 decide; the argument comparator is decided against a four-class operand model (R16.7), trusting that every integer string parses as f64",
                "digit-run arithmetic in cmp_int and tokenisation", "panic-freedom of sort_by under an inconsistent order"]
 
